@@ -26,11 +26,15 @@ def use_form(spec, t):
     return qual(spec, t)
 
 
+def goname(spec, t):
+    return spec['types'][t].get('goname', t)
+
+
 def qual(spec, t, frompkg=''):
     p = spec['types'][t].get('pkg', '')
     if p and p != frompkg:
-        return spec['alias'][p] + '.' + t
-    return t
+        return spec['alias'][p] + '.' + goname(spec, t)
+    return goname(spec, t)
 
 
 # ---------------------------------------------------------------------------------------------------------------------
@@ -119,6 +123,7 @@ func TermOf(v any) string {
 
 def emit_type(spec, name, ty, pkg):
     """type declaration + GetTerm + constructor, inside package pkg ('' = main package)"""
+    name = ty.get('goname', name)
     out = []
     form = ty['form']
     if form == 'iface':
@@ -160,8 +165,8 @@ def use_form_in(spec, t, pkg):
 def mk_name(spec, t, pkg):
     p = spec['types'][t].get('pkg', '')
     if p and p != pkg:
-        return spec['alias'][p] + '.Mk' + t
-    return 'Mk' + t
+        return spec['alias'][p] + '.Mk' + goname(spec, t)
+    return 'Mk' + goname(spec, t)
 
 
 def emit_func(spec, f, pkg):
@@ -189,9 +194,9 @@ def elem_expr(spec, e):
     if k == 'bind':
         return 'wire.Bind(new(%s), new(%s))' % (qual(spec, e['iface']), use_form(spec, e['impl']))
     if k == 'value':
-        return 'wire.Value(val%s)' % e['type']
+        return 'wire.Value(%sVal%s)' % ((spec['alias'][e['pkg']] + '.') if e.get('pkg') else '', e['type'])
     if k == 'ifacevalue':
-        return 'wire.InterfaceValue(new(%s), ival%s)' % (qual(spec, e['iface']), e['iface'])
+        return 'wire.InterfaceValue(new(%s), %sIval%s)' % (qual(spec, e['iface']), (spec['alias'][e['pkg']] + '.') if e.get('pkg') else '', e['iface'])
     if k == 'struct':
         return 'wire.Struct(new(%s), %s)' % (qual(spec, e['type']), ', '.join('"%s"' % f for f in e['fields']))
     if k == 'fieldsof':
@@ -224,7 +229,7 @@ def write_pkg(spec, root):
     """root/<id>/ : types.go, sets<k>.go, wire.go, main.go  (+ sub-packages a/util, b/util, rtw)"""
     d = os.path.join(root, spec['id'])
     os.makedirs(d, exist_ok=True)
-    subpk = sorted({ty.get('pkg', '') for ty in spec['types'].values()} | {f.get('pkg', '') for f in spec['funcs']})
+    subpk = sorted({ty.get('pkg', '') for ty in spec['types'].values()} | {f.get('pkg', '') for f in spec['funcs']} | {e.get('pkg', '') for e in spec['elems']})
     subpk = [p for p in subpk if p]
     # runtime: package rtw when sub-packages exist (they must share the log), else inline
     os.makedirs(os.path.join(d, 'rtw'), exist_ok=True)
@@ -239,6 +244,11 @@ def write_pkg(spec, root):
         for f in spec['funcs']:
             if f.get('pkg', '') == p:
                 body += emit_func(spec, f, p) + '\n'
+        for e in spec['elems']:
+            if e.get('pkg') == p and e['kind'] == 'value':
+                body += 'var Val%s = %s("val:%s")\n' % (e['type'], mk_name(spec, e['type'], p), e['type'])
+            elif e.get('pkg') == p and e['kind'] == 'ifacevalue':
+                body += 'var Ival%s = %s("ival:%s")\n' % (e['iface'], mk_name(spec, e['impl'], p), e['iface'])
         im = ['\t"strings"', '\t"scratchw/%s/rtw"' % spec['id']]
         import re
         for q, a in spec['alias'].items():
@@ -254,10 +264,12 @@ def write_pkg(spec, root):
         if not f.get('pkg'):
             body += emit_func(spec, f, '') + '\n'
     for e in spec['elems']:
+        if e.get('pkg'):
+            continue
         if e['kind'] == 'value':
-            body += 'var val%s = %s("val:%s")\n' % (e['type'], mk_name(spec, e['type'], ''), e['type'])
+            body += 'var Val%s = %s("val:%s")\n' % (e['type'], mk_name(spec, e['type'], ''), e['type'])
         elif e['kind'] == 'ifacevalue':
-            body += 'var ival%s = %s("ival:%s")\n' % (e['iface'], mk_name(spec, e['impl'], ''), e['iface'])
+            body += 'var Ival%s = %s("ival:%s")\n' % (e['iface'], mk_name(spec, e['impl'], ''), e['iface'])
     im = ['\t"strings"', '\t"scratchw/%s/rtw"' % spec['id']] + needs_imports(spec, body)
     open(os.path.join(d, 'types.go'), 'w').write('package main\n\nimport (\n%s\n)\n\nvar _ = strings.Join\nvar _ = rtw.TermOf\n\n%s' % ('\n'.join(im), body))
     # sets and injector
@@ -293,8 +305,11 @@ def main_go(spec, params):
             continue
         star = p.startswith('*')
         base = p.lstrip('*')
-        tname = base.split('.')[-1]
-        ty = spec['types'].get(tname)
+        tname = None
+        for key, tt in spec['types'].items():
+            if qual(spec, key) == base:
+                tname = key
+        ty = spec['types'].get(tname) if tname else None
         if ty is None:
             return None
         if ty['form'] == 'iface':
@@ -394,6 +409,7 @@ def random_spec(rng, sid, nmin=3, nmax=6, external=False, decoy=False, struct_va
     args = []
     alias = {'a/util': 'util', 'b/util': 'butil'} if external else {}
     nT = [0]
+    twin_done = [False]
 
     def new_type(form=None, pkg=''):
         name = 'T%d' % nT[0]
@@ -424,19 +440,35 @@ def random_spec(rng, sid, nmin=3, nmax=6, external=False, decoy=False, struct_va
     for i in range(n):
         r = rng.random()
         if r < 0.12 and i > 0:
-            # injected constant
-            t = new_type()
-            elems.append({'kind': 'value', 'type': t})
+            # injected constant (a variable of the main package, or an exported variable of a sub-package)
+            vpkg = rng.choice(['a/util', 'b/util']) if external and rng.random() < 0.6 else ''
+            t = new_type(pkg=vpkg)
+            elems.append({'kind': 'value', 'type': t, 'pkg': vpkg})
             produced.append(t)
             continue
         if r < 0.2:
             # interface value
-            impl = new_type('ptr')
+            vpkg = rng.choice(['a/util', 'b/util']) if external and rng.random() < 0.6 else ''
+            impl = new_type('ptr', pkg=vpkg)
             iname = 'I%d' % nI
             nI += 1
             types[iname] = {'form': 'iface', 'pkg': ''}
-            elems.append({'kind': 'ifacevalue', 'iface': iname, 'impl': impl})
+            elems.append({'kind': 'ifacevalue', 'iface': iname, 'impl': impl, 'pkg': vpkg})
             produced.append(iname)
+            continue
+        if external and not twin_done[0] and r < 0.45:
+            # two structs with the SAME name in two packages, each with a FieldsOf in this configuration
+            twin_done[0] = True
+            for pk, suffix in (('a/util', 'A'), ('b/util', 'B')):
+                key = 'Config@' + suffix
+                f1, f2 = new_type(pkg=pk), new_type(pkg=pk)
+                types[key] = {'form': 'fstruct', 'fields': [['Fa', f1], ['Fb', f2]], 'pkg': pk, 'goname': 'Config'}
+                fname = 'MakeConfig' + suffix
+                funcs.append({'name': fname, 'requires': [], 'provides': key, 'fallible': False, 'pkg': pk})
+                elems.append({'kind': 'func', 'name': fname})
+                which = ['Fa'] if suffix == 'A' else ['Fb']
+                elems.append({'kind': 'fieldsof', 'type': key, 'fields': which})
+                produced.append(f1 if which == ['Fa'] else f2)
             continue
         if r < 0.36 and len(produced) >= 2:
             # a struct built by wire.Struct from what exists
